@@ -163,6 +163,11 @@ def run(ctx):
     ctx.extra_cov["trace_events_validated"] = events
     ctx.exhaustive = False
 
+    # 6. growth beyond C25 (thorough tier only, notes only): the reader on malformed PDUs
+    if not q:
+        from checks import _ps38mut
+        _ps38mut.growth(ctx, vlib, SPEC)
+
     # 5. binding self-test
     if not q or os.environ.get("VERIF_SELFTEST"):
         selftest(ctx, [tf["path"] for tf in rep["trace_files"] if not tf["path"].endswith("_big.ndjson")][0])
